@@ -89,5 +89,6 @@ var engineKinds = map[string]string{
 	"tlsmatrix": "real TLS configurations (server/client, raw and inside the real mux receiver/establisher) in real handshakes against an in-process PKI",
 	"muxsim":    "real mux provider / multi-mux manager / managed sessions over net.Pipe with a scripted connection provider, virtual time",
 	"gossip":    "real shard managers + memberlist delegates with the harness as the gossip network (delivery permutations, duplicates, merges, leaves); routing-result probes",
+	"wire":      "assembled proxies (NewClusterConnection) on loopback TCP / yamux between recording fake clusters; real interceptor chain and codec",
 	"ringmodel": "real ring buffer vs reference model, exhaustive-bounded + random operation sequences",
 }
